@@ -1,7 +1,8 @@
 """C15 — a node takes effect exactly when all enclosing case clauses are selected.
 
 Correspondence (impl vs Lean model of list_branching/list_hierarchy/DIP.parse) and oracle
-(impl vs Lean `sem` of the program tree; impl vs the declarative `misplaced` specification).
+(impl vs Lean `sem` of the program tree; impl vs the declarative `misplaced` specification on raw
+line sequences: a text with a misplaced @else/@end/@case must be refused).
 The DIP text is built from the lines the Lean `render` returns, so the theorem
 `parse (render p) = sem p` speaks about exactly the text the real parser is given.
 """
@@ -31,8 +32,8 @@ ASSUMPTIONS = [
 ]
 EXPLANATION = ("theorems: for every program tree, truth assignment and indentation oracle the state machine "
                "(hierarchy + branching + order of tests in DIP.parse) returns exactly the nodes of the selected "
-               "clauses; every @else/@end that is misplaced according to a declarative definition on raw line "
-               "sequences makes the machine fail; a @case after @else fails")
+               "clauses; every @else/@end (and @case after @else) that is misplaced according to a declarative "
+               "definition on raw line sequences makes the machine fail")
 
 NAMES = ["a", "b", "c", "d", "e"]
 GROUPS = ["g", "h", "k"]
@@ -262,7 +263,11 @@ def judge_ast(ctx, items, r, deco, rng_for_deco, tag):
         pre = classify(imp, spec)
         seen = ctx.extra.setdefault("_shrunk", {})
         small, imp2, text2, spec2 = items, imp, text, spec
-        if deco is None and seen.get(pre, 0) < 2:
+        plain = deco is None
+        if not plain and seen.get(pre, 0) < 2:
+            res0 = eval_ast(ctx, items)
+            plain = bool(res0) and res0[1] != res0[0]["spec"]
+        if plain and seen.get(pre, 0) < 2:
             seen[pre] = seen.get(pre, 0) + 1
             cand = shrink_ast(ctx, items)
             res = eval_ast(ctx, cand)
@@ -362,21 +367,38 @@ def judge_lines(ctx, lines, r, tag):
     if imp == "err":
         ctx.count("lines.impl_err")
     if mis and imp != "err":
-        # which line? the first misplaced one: shrink by cutting the text after it
-        cut = lines
-        for n in range(1, len(lines) + 1):
-            rr = ctx.driver.ask({"p": "C15", "k": "lines", "lines": lines[:n]})
-            if "ok" in rr and rr["ok"]["misplaced"]:
-                cut = lines[:n]
+        # which line? the first misplaced one: cut the text after it (all prefixes in one batch)
+        cut, rr, imp2 = lines, r, imp
+        pre = ctx.driver.ask_many([{"p": "C15", "k": "lines", "lines": lines[:n]} for n in range(1, len(lines) + 1)])
+        for n, q in enumerate(pre, 1):
+            if "ok" in q and q["ok"]["misplaced"]:
+                imp3, _ = impl_run(to_text(q["ok"]["lines"]))
+                if imp3 != "err":      # (else: the prefix fails but the whole text is accepted — keep the whole)
+                    cut, rr, imp2 = lines[:n], q["ok"], imp3
                 break
-        rr = ctx.driver.ask({"p": "C15", "k": "lines", "lines": cut})["ok"]
-        imp2, _ = impl_run(to_text(rr["lines"]))
-        if imp2 == "err":   # the prefix fails but the whole text is accepted?  keep the whole
-            cut, rr, imp2 = lines, r, imp
-        ctx.violation("misplaced:%s-accepted" % cut[-1][1] if cut is not lines else "misplaced:accepted",
+        seen = ctx.extra.setdefault("_shrunk", {})
+        key = "lines:" + cut[-1][1]
+        if cut is not lines and seen.get(key, 0) < 2:
+            # drop earlier lines while the last line stays misplaced and the text stays accepted
+            seen[key] = seen.get(key, 0) + 1
+            i = 0
+            while i < len(cut) - 1:
+                cand = cut[:i] + cut[i + 1:]
+                q = ctx.driver.ask({"p": "C15", "k": "lines", "lines": cand})
+                ok = "ok" in q and q["ok"]["misplaced"] and not any(
+                    "ok" in z and z["ok"]["misplaced"] for z in
+                    ctx.driver.ask_many([{"p": "C15", "k": "lines", "lines": cand[:-1]}]))
+                if ok:
+                    imp3, _ = impl_run(to_text(q["ok"]["lines"]))
+                    if imp3 != "err":
+                        cut, rr, imp2 = cand, q["ok"], imp3
+                        continue
+                i += 1
+        ctx.violation("misplaced:%s-accepted" % {"c1": "case", "c0": "case"}.get(cut[-1][1], cut[-1][1])
+                      if cut is not lines else "misplaced:accepted",
                       "text\n    %s\n  contains a misplaced %s but the real parser accepts it and returns %s" %
                       (to_text(rr["lines"]).replace("\n", "\n    "),
-                       line_kind_text(cut[-1]) if cut is not lines else "@else/@end", imp2),
+                       line_kind_text(cut[-1]) if cut is not lines else "clause line", imp2),
                       {"stream": "lines", "lines": cut, "text": to_text(rr["lines"]), "impl": imp2, "spec": "err"})
     if imp != r["model"]:
         ctx.disagreement("lines", {"lines": lines, "text": text}, "impl %s model %s" % (imp, r["model"]))
